@@ -33,7 +33,7 @@ from golem.core.optimisers.genetic.operators import crossover as crossover_modul
 from golem.core.optimisers.genetic.operators.crossover import Crossover, CrossoverTypesEnum
 from golem.core.optimisers.genetic.operators.mutation import Mutation
 from golem.core.optimisers.graph import OptGraph, OptNode
-from golem.core.optimisers.opt_history_objects.individual import Individual
+from golem.core.optimisers.opt_history_objects.individual import Individual, GraphEvalResult
 from golem.core.optimisers.optimization_parameters import GraphRequirements
 from golem.core.optimisers.optimizer import GraphGenerationParams
 from golem.core.optimisers.random_graph_factory import RandomGrowthGraphFactory
@@ -488,7 +488,10 @@ def make_env(cfg):
                                random_graph_factory=RandomGrowthGraphFactory(
                                    GraphVerifier(RULESETS['default'], adapter) if cfg['rules'] == 'reject_all' else plain,
                                    node_factory))
-    req = GraphRequirements(max_depth=cfg['max_depth'], max_arity=cfg['max_arity'])
+    req_kw = {}
+    if 'static_meta' in cfg:    # static_individual_metadata: dict - also an EMPTY dict or a user's own dict
+        req_kw['static_individual_metadata'] = dict(cfg['static_meta'])
+    req = GraphRequirements(max_depth=cfg['max_depth'], max_arity=cfg['max_arity'], **req_kw)
     agent = None
     if cfg['op'] == 'mutation':
         types = [MutationTypesEnum[t] if t in MUT_TYPES else USER_MUT[t] for t in cfg['types']]
@@ -698,7 +701,10 @@ def make_population(spec):
     graphs = [build_graph(g['par'], g['names'], cls, ncls) for g in spec['graphs']]
     inds = []
     for d in spec['inds']:
-        ind = Individual(graphs[d['g']])
+        if d.get('meta') is not None:       # an individual with its OWN metadata dict (possibly empty)
+            ind = Individual(graphs[d['g']], metadata=dict(d['meta']))
+        else:
+            ind = Individual(graphs[d['g']])
         if d.get('fit') is not None:
             ind.set_evaluation_result(SingleObjFitness(d['fit']))
         if d.get('gen') is not None:
@@ -873,6 +879,8 @@ def run_case(spec, env=None):
     if agent is not None:
         del agent.drawn[:]
     w = World()
+    if 'static_meta' in cfg:    # what a fresh individual carries under these requirements
+        w.fresh_meta.add(repr(sorted((str(k), repr(v)) for k, v in cfg['static_meta'].items())))
     for i in pop:
         w.ind(i)
     before = w.read()
@@ -897,6 +905,18 @@ def run_case(spec, env=None):
         outs_obj = list(out)
     out_irefs = [w.ind(o) for o in outs_obj]
     after = w.read()
+    if spec.get('evaluate_new'):
+        # the ordinary next step of an optimiser: every NEW individual is evaluated (fitness + result metadata).  An
+        # input individual that shares state with its offspring is altered by this step; the objects that existed
+        # before the call are therefore read once more AFTER the evaluation (the new objects stay as the operator
+        # returned them, so that the model is compared with the operator alone)
+        for k, (o, ir) in enumerate(zip(outs_obj, out_irefs)):
+            if ir >= n_in and not o.fitness.valid:
+                o.set_evaluation_result(GraphEvalResult(o.uid, SingleObjFitness(float(k)), o.graph,
+                                                        metadata={'evaluated_as_child': k}))
+        later = w.read()
+        for key in ('nodes', 'graphs', 'inds'):
+            after[key][:len(before[key])] = later[key][:len(before[key])]
     if raised is None:
         res = ('single', out_irefs[0]) if isinstance(out, Individual) else ('list', out_irefs)
     verdicts = [bool(plain(o.graph)) for o in outs_obj]
@@ -1288,6 +1308,28 @@ def gen_specs(ctx):
         ver = GraphVerifier(RULESETS[cfg['rules'] if cfg['rules'] != 'reject_all' else 'default'])
         graphs = [random_valid_spec(r, ver, max_n=7) for _ in range(npop)]
         specs.append(plain_spec(graphs, list(range(npop)), cfg, sd(), 'user-functions'))
+    # --- static-metadata stream (round 8): requirements whose static_individual_metadata is EMPTY or the user's own
+    #     dict, members with their own (empty / non-empty) metadata dicts; the new individuals are evaluated afterwards
+    #     and the members are read again (shared state between a member and its offspring shows up there)
+    for k in range(ctx.budget(120, 1000)):
+        op = 'crossover' if k % 3 else 'mutation'
+        if op == 'crossover':
+            types = r.sample(CROSS_TYPES[:2] + CROSS_TYPES[3:], r.choice([1, 1, 2]))
+            npop = r.choice([2, 2, 3, 4])
+        else:
+            types = r.sample(MUT_TYPES[:9], r.choice([1, 2]))
+            npop = r.choice([1, 2, 3])
+        cfg = base_cfg(r, op, types, rules=r.choice(['default', 'default', 'accept_all']), prob=1)
+        if op == 'mutation':
+            cfg['agent'] = True
+        cfg['static_meta'] = r.choice([{}, {}, {'tag': 'run7'}])
+        ver = GraphVerifier(RULESETS[cfg['rules']])
+        graphs = [random_valid_spec(r, ver, max_n=7) for _ in range(npop)]
+        inds = [{'g': j, 'fit': r.choice([None, None, 1.0]), 'gen': r.choice([None, 2]),
+                 'meta': r.choice([None, {}, {'origin': 'initial', 'slot': j}])} for j in range(npop)]
+        sp = plain_spec(graphs, list(range(npop)), cfg, sd(), 'static-metadata', inds=inds)
+        sp['evaluate_new'] = True
+        specs.append(sp)
     return specs
 
 
@@ -1375,7 +1417,9 @@ def run(ctx):
                 'max_depth, arity, attempts, 6 rule sets, shared graph objects, repeated individuals), relatives (parents '
                 'derived from one ancestor by earlier operator calls / deepcopy: shared node uids), user functions (native and '
                 'domain-level mutation callables with a DirectAdapter, crossover callables), agents (every adaptive_mutation_type x '
-                'context_agent_type importable offline); the snapshot keeps the ORDER of graph.nodes and of every nodes_from, uids, '
+                'context_agent_type importable offline), static-metadata (requirements with an empty / own '
+                'static_individual_metadata, members with own metadata dicts; new individuals are evaluated afterwards and the '
+                'members read again); the snapshot keeps the ORDER of graph.nodes and of every nodes_from, uids, '
                 'content, and every field of the individuals; distinct = distinct (population, '
                 'configuration, seed); non-trivial = the operator was applied to at least one member / pair')
     ctx.trusted_extra = [
